@@ -141,8 +141,11 @@ pub fn dap_check(prop: &str, tier: &str) -> i32 {
     let mut idx = 0u64;
     let mut params: BTreeMap<String, Value> = BTreeMap::new();
     params.insert("max_requests".into(), json!(if tier == "quick" { 22 } else { 30 }));
-    if prop == "C13" {
+    if prop == "C13" || prop == "C15" {
         params.insert("session_first".into(), json!(true));
+    }
+    if prop == "C15" {
+        params.insert("max_requests".into(), json!(40));
     }
     for (p, b) in &corpus.progs {
         for _ in 0..histories {
@@ -161,7 +164,7 @@ pub fn dap_check(prop: &str, tier: &str) -> i32 {
         timeout: Duration::from_secs(90),
         params,
         level: "exploration".into(),
-        rule: if prop == "C13" { "one case = one (program, history of setBreakpoints / setFunctionBreakpoints / setInstructionBreakpoints with condition, hitCondition or logMessage, before start, after start and around restart, interleaved with configurationDone / continue / restart); which addresses a request denotes is asked of the core (twin Debugger), where the program must stop next comes from the reference execution, where it really is from PTRACE_GETREGS + TICK, which addresses are patched from the process text; distinct = distinct canonical wire log; non-trivial = at least 3 requests".to_string() } else { "one case = one (program, adaptive request history with argument mutation, interleaving of the session thread and the stdout/stderr forwarder threads chosen at the H1 schedule points from the run's tape); the recorded wire log is checked for one response per request, seq = 1,2,3.. in wire order, event uniqueness/causality and silence after `terminated`; distinct = distinct canonical wire log + schedule; non-trivial = at least 3 requests".to_string() },
+        rule: if prop == "C15" { "DAP leg: one case = one (program, history of readMemory / writeMemory (1..40 bytes, any alignment, data and stack) / stackTrace / scopes / variables / setVariable / setExpression at breakpoint stops); every read is compared with /proc/<pid>/mem, every write with a byte mirror of the executable's data and the stack taken before the request (exactly [a, a+n) may change), set values must be shown by the response and change no more than the variable's own bytes; every write is undone by the harness".to_string() } else if prop == "C13" { "one case = one (program, history of setBreakpoints / setFunctionBreakpoints / setInstructionBreakpoints with condition, hitCondition or logMessage, before start, after start and around restart, interleaved with configurationDone / continue / restart); which addresses a request denotes is asked of the core (twin Debugger), where the program must stop next comes from the reference execution, where it really is from PTRACE_GETREGS + TICK, which addresses are patched from the process text; distinct = distinct canonical wire log; non-trivial = at least 3 requests".to_string() } else { "one case = one (program, adaptive request history with argument mutation, interleaving of the session thread and the stdout/stderr forwarder threads chosen at the H1 schedule points from the run's tape); the recorded wire log is checked for one response per request, seq = 1,2,3.. in wire order, event uniqueness/causality and silence after `terminated`; distinct = distinct canonical wire log + schedule; non-trivial = at least 3 requests".to_string() },
         assumptions: vec![
             "schedule points sit outside every critical section, so the explored interleavings are exactly those distinguishable on the wire".into(),
             "the simulated transport never blocks; in the real adapter the session holds the transport mutex while waiting for the client, which admits the same wire orders".into(),
@@ -172,7 +175,7 @@ pub fn dap_check(prop: &str, tier: &str) -> i32 {
             "simulated": ["DAP client (seeded adaptive generator)", "transport (in-memory DapTransport)", "thread scheduler at hook points (tape-driven)"],
             "stub": ["TCP/stdio framing (Content-Length) not exercised"]
         }),
-        required_probes: if prop == "C13" { vec!["c13.set_requests_checked".into(), "c13.runs_checked".into(), "c13.expected_stop".into(), "c13.expected_exit".into(), "c13.sets_before_start".into(), "c13.sets_after_start".into(), "c13.breakpoints_with_options".into(), "c13.multi_location_breakpoints".into(), "c13.text_checked_after_set".into()] } else { vec!["c12.requests".into(), "c12.output_events".into(), "c12.decisions_with_choice".into(), "c12.forwarder_released_between_seq_and_lock_with_rivals".into(), "c12.error_responses".into(), "c12.stopped_events".into()] },
+        required_probes: if prop == "C15" { vec!["c15.dap_read_ok_compared".into(), "c15.dap_write_ok".into(), "c15.dap_set_ok".into()] } else if prop == "C13" { vec!["c13.set_requests_checked".into(), "c13.runs_checked".into(), "c13.expected_stop".into(), "c13.expected_exit".into(), "c13.sets_before_start".into(), "c13.sets_after_start".into(), "c13.breakpoints_with_options".into(), "c13.multi_location_breakpoints".into(), "c13.text_checked_after_set".into()] } else { vec!["c12.requests".into(), "c12.output_events".into(), "c12.decisions_with_choice".into(), "c12.forwarder_released_between_seq_and_lock_with_rivals".into(), "c12.error_responses".into(), "c12.stopped_events".into()] },
         budget: Duration::from_secs(600),
     };
     orch::run_check(cfg, ws, corpus_info)
@@ -247,18 +250,18 @@ pub fn layer_b_check(prop: &str, tier: &str) -> i32 {
 }
 
 /// Run two legs of one property and merge their evidence into /verif/evidence/<prop>.json.
-fn two_legs(prop: &str, tier: &str) -> i32 {
+fn two_legs(prop: &str, tier: &str, second: fn(&str, &str) -> i32, name: &str) -> i32 {
     let path = format!("{}/evidence/{prop}.json", orch::VERIF);
     let a = layer_a_check(prop, tier);
     let ev_a: Value = std::fs::read_to_string(&path).ok().and_then(|s| serde_json::from_str(&s).ok()).unwrap_or(json!({}));
-    let b = layer_b_check(prop, tier);
+    let b = second(prop, tier);
     let ev_b: Value = std::fs::read_to_string(&path).ok().and_then(|s| serde_json::from_str(&s).ok()).unwrap_or(json!({}));
     let mut m = ev_a.clone();
     let num = |v: &Value, k: &str| v["coverage"][k].as_u64().unwrap_or(0);
     m["coverage"]["evaluations"] = json!(num(&ev_a, "evaluations") + num(&ev_b, "evaluations"));
     m["coverage"]["distinct_nontrivial"] = json!(num(&ev_a, "distinct_nontrivial") + num(&ev_b, "distinct_nontrivial"));
     m["coverage"]["rule"] = json!(format!("{} || {}", ev_a["coverage"]["rule"].as_str().unwrap_or(""), ev_b["coverage"]["rule"].as_str().unwrap_or("")));
-    m["coverage"]["leg_layer_b"] = ev_b["coverage"].clone();
+    m["coverage"][name] = ev_b["coverage"].clone();
     m["violations"] = json!(ev_a["violations"].as_u64().unwrap_or(0) + ev_b["violations"].as_u64().unwrap_or(0));
     m["wall_s"] = json!(ev_a["wall_s"].as_f64().unwrap_or(0.0) + ev_b["wall_s"].as_f64().unwrap_or(0.0));
     let mut assumptions: Vec<Value> = ev_a["assumptions"].as_array().cloned().unwrap_or_default();
@@ -274,9 +277,10 @@ fn two_legs(prop: &str, tier: &str) -> i32 {
 
 pub fn check(prop: &str, tier: &str) -> i32 {
     match prop {
-        "C11" | "C14" => two_legs(prop, tier),
+        "C11" | "C14" => two_legs(prop, tier, layer_b_check, "leg_layer_b"),
+        "C15" => two_legs(prop, tier, dap_check, "leg_dap"),
         "C09" | "C10" => layer_b_check(prop, tier),
-        "C01" | "C02" | "C03" | "C05" | "C11" | "C14" | "C15" | "C16" => layer_a_check(prop, tier),
+        "C01" | "C02" | "C03" | "C05" | "C16" => layer_a_check(prop, tier),
         "C12" | "C13" => dap_check(prop, tier),
         _ => {
             eprintln!("no check for {prop}");
